@@ -259,6 +259,24 @@ pub const STRETCH_DEEP: &[Tmpl] = &[
     Tmpl { name: "text x comment", segs: &[L(b"<a>"), S(0, b"t"), L(b"<!--"), S(1, b"c"), L(b"--></a>")] },
 ];
 
+/// Stretch templates for the serde properties (field names a, b, c, @x, $text of the C07/C14 targets).
+pub const STRETCH_SERDE: &[Tmpl] = &[
+    Tmpl { name: "attribute value x element text", segs: &[L(b"<r x=\""), S(0, b"v"), L(b"\"><a>"), S(1, b"t"), L(b"</a></r>")] },
+    Tmpl { name: "many a items x many b items", segs: &[L(b"<r>"), S(0, b"<a>x</a>"), S(1, b"<b x=\"1\"/>"), L(b"</r>")] },
+    Tmpl { name: "interleaved a/b items", segs: &[L(b"<r>"), S(0, b"<a>x</a><b x=\"1\"/>"), S(1, b"<c x=\"2\"/>"), L(b"</r>")] },
+    Tmpl { name: "unknown elements skipped x blanks", segs: &[L(b"<r>"), S(0, b"<zz k=\"1\">q<y/></zz>"), L(b"<a>t</a>"), S(1, b" "), L(b"</r>")] },
+    Tmpl { name: "text pieces x cdata pieces", segs: &[L(b"<r>"), S(0, b"t"), S(1, b"<![CDATA[c]]>u"), L(b"</r>")] },
+    Tmpl { name: "text split by comments", segs: &[L(b"<r>"), S(0, b"t<!--c-->"), S(1, b"<?p q?>"), L(b"u</r>")] },
+    Tmpl { name: "deep nesting of a", segs: &[L(b"<r>"), S(0, b"<a>"), L(b"t"), S(0, b"</a>"), S(1, b"<b x=\"1\"/>"), L(b"</r>")] },
+    Tmpl { name: "deep nesting of unknown elements", segs: &[L(b"<r>"), S(0, b"<zz>"), S(1, b"q"), S(0, b"</zz>"), L(b"<a>t</a></r>")] },
+    Tmpl { name: "list in attribute x list in text", segs: &[L(b"<r x=\""), S(0, b"a "), L(b"\">"), S(1, b"1 "), L(b"</r>")] },
+    Tmpl { name: "long comment x long pi before content", segs: &[L(b"<r><!--"), S(0, b"c"), L(b"--><?p "), S(1, b"q"), L(b"?><a>t</a></r>")] },
+    Tmpl { name: "long unknown element name x long unknown attribute", segs: &[L(b"<r "), S(1, b"k"), L(b"=\"1\"><"), S(0, b"n"), L(b"z/><a>t</a></r>")] },
+    Tmpl { name: "entities in text x entities in attribute", segs: &[L(b"<r x=\""), S(1, b"&lt;"), L(b"\"><a>"), S(0, b"&amp;&#x20;"), L(b"</a></r>")] },
+    Tmpl { name: "blank text around items", segs: &[L(b"<r>"), S(0, b" \n"), L(b"<a>x</a>"), S(1, b"\t"), L(b"<a>y</a></r>")] },
+    Tmpl { name: "prolog x trailing comments", segs: &[L(b"<?xml version=\"1.0\"?>"), S(0, b"<!--p-->"), L(b"<r><a>t</a></r>"), S(1, b"<!--e-->")] },
+];
+
 /// 2^j-2 ..= 2^j+2 for lo <= j <= hi
 pub fn pow_sizes(lo: u32, hi: u32) -> Vec<u32> {
     let mut v = Vec::new();
